@@ -39,7 +39,7 @@ P_LABEL = [["lab", ".Lx"], ["p", 0], ["jcc", ".Lx"]]
 P_GLABEL = [["p", 0], ["lab", "G_new"], ["p", 0]]
 P_DATA = {"bytes": [0]}
 
-KINDS = ("cccc", "cdcc", "ccdc", "cccd", "dccc")
+KINDS = ("cccc", "cdcc", "ccdc", "cccd", "dccc", "czdc", "czcc")  # z: a code block that is already zero-sized (leftover of an earlier rewrite)
 FUNCS = (("f", "f", "f", "f"), ("f", "g", "g", "h"), (None, "f", "f", None))
 LABELS = ((), ("A",), ("B",), ("D",), ("B", "C"), ("A", "B"), ("+B",), ("+A", "-B"), ("+B", "A", "-C"))
 
@@ -49,7 +49,11 @@ def make_spec(kinds, funcs, labs, last_ret=True):
     seen = set()
     for j, (k, fu) in enumerate(zip(kinds, funcs)):
         name = scen.NAMES[j]
-        if k == "c":
+        if k == "z":
+            ent = fu is not None and fu not in seen
+            seen.add(fu)
+            b = scen.code_block(name, [], None, f=fu, e=ent)
+        elif k == "c":
             term = ["ret"] if (last_ret and j == len(kinds) - 1) else None
             ent = fu is not None and fu not in seen
             seen.add(fu)
@@ -72,8 +76,13 @@ def tasks(tier):
     for kinds in KINDS:
         for fi, funcs in enumerate(FUNCS):
             for labs in LABELS:
-                if tier == "quick" and fi > 0 and (any(x.startswith("-") for x in labs) or kinds in ("cccd", "dccc")):
+                if tier == "quick" and fi > 0 and (any(x.startswith("-") for x in labs) or kinds in ("cccd", "dccc", "czcc")):
                     continue  # quick tier: the anonymous-block variants and two kind rows only with the first function partition
+                if "z" in kinds:
+                    # single modifications only: two of them can bring an insertion point onto the sizeless block's address,
+                    # where "before or behind it" has no answer in the listing (and the library's depends on set order: F42, C11)
+                    t.append(("sets", kinds, fi, list(labs), 1))
+                    continue
                 t.append(("sets", kinds, fi, list(labs), n))
                 if fi == 0 or tier == "thorough":
                     t.append(("chains", kinds, fi, list(labs), 0))
@@ -95,6 +104,10 @@ def task_group(task):
 
 def atoms_for(spec):
     out = []
+    allb = [b for s in spec["sections"] for b in s["blocks"]]
+    zi = next((j for j, b in enumerate(allb) if not b["i"]), None)
+    if zi is not None:
+        return z_atoms(allb, zi)
     for s, b in [(s, b) for s in spec["sections"] for b in s["blocks"]]:
         n = len(b["i"])
         pl = [P_ORD, P_LABEL] if b["k"] == "c" else [P_DATA]
@@ -107,6 +120,28 @@ def atoms_for(spec):
             out.append({"op": "del", "b": b["n"], "k": 0, "n": 1})
             out.append({"op": "del", "b": b["n"], "k": n - 1, "n": 1})
             out.append({"op": "rep", "b": b["n"], "k": 0, "n": 1, "p": pl[0]})
+    return out
+
+
+def z_atoms(allb, zi):
+    """modules with a block that is already zero-sized: only modifications whose meaning does not depend on whether they
+    happen before or behind that (sizeless) position - nothing inserted at its address, neither neighbour deleted wholly"""
+    out = []
+    for j, b in enumerate(allb):
+        n = len(b["i"])
+        if j == zi:
+            continue
+        p = P_ORD if b["k"] == "c" else P_DATA
+        for k in range(n + 1):
+            if (j == zi + 1 and k == 0) or (j == zi - 1 and k == n):
+                continue
+            out.append({"op": "ins", "b": b["n"], "k": k, "p": p})
+        if n > 1:
+            out.append({"op": "del", "b": b["n"], "k": 0, "n": 1})  # incl. the bytes right behind the zero-sized block
+            out.append({"op": "del", "b": b["n"], "k": n - 1, "n": 1})
+            out.append({"op": "rep", "b": b["n"], "k": n - 1, "n": 1, "p": p})
+        if abs(j - zi) > 1:
+            out.append({"op": "del", "b": b["n"], "k": 0, "n": n})
     return out
 
 
